@@ -207,3 +207,100 @@ def name_literal(prog, cls):
                 lit = v[1]
     _NAME_CACHE[key] = lit
     return lit
+
+
+_CC_CACHE = {}
+_CC_BUSY = set()
+
+
+def ctor_constants(prog, cls):
+    """{member: constant} for the integer / bool / string members of a catalogue class that its constructor chain sets to a
+    constant on every path and that no other function of the program writes (dimension, mmsname, ...)"""
+    key = (id(prog), cls)
+    if key in _CC_CACHE:
+        return _CC_CACHE[key]
+    if key in _CC_BUSY:
+        return {}
+    _CC_BUSY.add(key)
+    out = {}
+    try:
+        from . import terms
+        from .ir import walk
+        from .ast import strip
+        ctors = [f for f in prog.methods_of(cls) if f.get('ctor') and len(f.params) == 0]
+        if ctors and ctors[0].body is not None:
+            scalar = 'long double' if '<long double' in cls else 'double'
+            E = terms.Evaluator(prog, dyn_class=cls, scalar=scalar, opaque=('register_var', 'register_vec', 'init_var'))
+            try:
+                outs = E.run(ctors[0])
+            except Exception:
+                outs = []
+            # the classes of the hierarchy and the types of their fields
+            hier, todo = [], [cls]
+            while todo:
+                k = todo.pop()
+                if k in hier or k not in prog.records:
+                    continue
+                hier.append(k)
+                todo.extend((b.get('q') if isinstance(b, dict) else b) for b in prog.records[k].get('bases', []))
+            ftype = {}
+            for k in hier:
+                for fld in prog.records[k].get('fields', []):
+                    ftype.setdefault(fld['n'], str(fld.get('t', '')))
+            cand = {}
+            if outs:
+                for m, v in outs[0].mem.items():
+                    if '.' in m or v[0] not in ('num', 'str'):
+                        continue
+                    ty = ftype.get(m, '').replace('const ', '')
+                    if ty not in ('int', 'unsigned int', 'bool', 'long', 'unsigned long', 'short') and 'basic_string' not in ty and ty != 'std::string':
+                        continue
+                    if all(o.mem.get(m) == v for o in outs):
+                        cand[m] = v
+            if cand:
+                written = _written_members(prog)
+                out = {m: v for m, v in cand.items() if m not in written}
+    finally:
+        _CC_BUSY.discard(key)
+    _CC_CACHE[key] = out
+    return out
+
+
+_WM_CACHE = {}
+
+
+def _written_members(prog):
+    """names of the data members some non-constructor function assigns, steps, takes the address of or assigns through operator="""
+    key = id(prog)
+    if key in _WM_CACHE:
+        return _WM_CACHE[key]
+    from .ir import walk
+    from .ast import strip
+    written = set()
+    for f in prog.functions:
+        if f.body is None or f.get('ctor'):
+            continue
+        for n in walk(f.body):
+            tgt = None
+            if n.get('k') == 'bin' and str(n.get('op', '')).endswith('=') and n['op'] not in ('==', '!=', '<=', '>='):
+                tgt = strip(n.get('a'), casts=True)
+            elif n.get('k') == 'un' and n.get('op') in ('++', '--', '&'):
+                tgt = strip(n.get('e'), casts=True)
+            elif n.get('k') == 'call' and n.get('opcall') and n.get('n') in ('operator=', 'operator+=') and n.get('args'):
+                tgt = strip(n['args'][0], casts=True)
+            if isinstance(tgt, dict) and tgt.get('k') == 'member':
+                written.add(tgt['n'])
+    _WM_CACHE[key] = written
+    return written
+
+
+def _derived(prog, k):
+    out, todo = set(), [k]
+    while todo:
+        x = todo.pop()
+        for q, r in prog.records.items():
+            if q not in out and any((b.get('q') if isinstance(b, dict) else b) == x for b in r.get('bases', [])):
+                out.add(q)
+                todo.append(q)
+    return out
+
